@@ -114,6 +114,51 @@ FUNCS = {'spmatrix_subscr': {
 from engine.cvc.exec import Region, StructV, FltV
 
 
+def _factors(t, conj=None):
+    """factors of a product term built from the engine's uninterpreted
+    fmul / conj, as (term, conjugated?) pairs with the conjugation a z3 Bool;
+    conj distributes over products and cancels with itself; a conditional
+    `c ? conj(v) : v` is the factor v conjugated iff c"""
+    conj = z3.BoolVal(False) if conj is None else conj
+    if z3.is_app(t) and t.decl().name() == 'fmul' and t.num_args() == 2:
+        return _factors(t.arg(0), conj) + _factors(t.arg(1), conj)
+    if z3.is_app(t) and t.decl().name() == 'conj' and t.num_args() == 1:
+        return _factors(t.arg(0), z3.Not(conj))
+    if z3.is_app(t) and t.decl().kind() == z3.Z3_OP_ITE:
+        c, a, b = t.arg(0), t.arg(1), t.arg(2)
+        fa, fb = _factors(a, conj), _factors(b, conj)
+        if len(fa) == len(fb) and all(z3.eq(x[0], y[0])
+                                      for x, y in zip(fa, fb)):
+            return [(x[0], z3.If(c, x[1], y[1])) for x, y in zip(fa, fb)]
+    return [(t, conj)]
+
+
+def increment_is(ex, pc, val, y_old, alpha, a_k, x_j, conj_a):
+    """val == y_old + alpha * (conj?) a_k * x_j  up to the order and the
+    association of the factors (floating-point products are uninterpreted,
+    so only the multiset of factors is compared); conj_a: z3 Bool saying when
+    the matrix entry has to be conjugated"""
+    if not (z3.is_app(val) and val.decl().name() == 'fadd' and
+            val.num_args() == 2):
+        return False
+    for yo, prod in ((val.arg(0), val.arg(1)), (val.arg(1), val.arg(0))):
+        if not any(z3.eq(yo, y_) for y_ in y_old):
+            continue
+        got = sorted(_factors(prod), key=lambda fc: fc[0].sexpr())
+        for a_ in a_k:
+            for x_ in x_j:
+                want = sorted([(alpha, z3.BoolVal(False)), (a_, conj_a),
+                               (x_, z3.BoolVal(False))],
+                              key=lambda fc: fc[0].sexpr())
+                if len(got) != len(want) or not all(
+                        z3.eq(g_[0], w_[0]) for g_, w_ in zip(got, want)):
+                    continue
+                same = z3.And([g_[1] == w_[1] for g_, w_ in zip(got, want)])
+                if ex.check(pc, [z3.Not(same)]) == z3.unsat:
+                    return True
+    return False
+
+
 def init_sp_gemv(ex, st, params):
     o = ex.new_obj('A')
     ex.axioms.append(o.issp)
@@ -273,6 +318,18 @@ def post_sp_gemv(ex, finished, extra_obs):
                    'position of %s and is added to the old y entry' % (
                        'the column j - oj' if isN else 'the row r - oi'),
                    ln_)
+                # the value: y_old + alpha * a * x, a conjugated exactly for
+                # trans = 'C' (complex kernel)
+                isz = ex.fname == 'sp_zgemv'
+                alpha_t = z3.Real('alpha.z' if isz else 'alpha.d')
+                conj_a = (g['tA'] == ord('C')) if isz else z3.BoolVal(False)
+                okv = increment_is(
+                    ex, pc_, val_, [l_[3] for l_ in yl], alpha_t,
+                    [l_[3] for l_ in vl], [l_[3] for l_ in xl], conj_a)
+                ob('kernel-definition', pc_, z3.BoolVal(okv),
+                   'the value stored is y + alpha * a * x with the entry '
+                   'a of A conjugated exactly when trans is C (and '
+                   'nothing else conjugated)', ln_)
     # y := beta*y over the strided extent of y, first
     seen_sc = 0
     done = set()
@@ -466,6 +523,16 @@ def post_sp_symv(ex, finished, extra_obs):
                         '(BLAS stride convention)' % (
                             ('first', 'j', 'i') if q == 0 else
                             ('mirrored', 'i', 'j')), ln_)
+                    alpha_t = z3.Real('alpha.z' if ex.fname == 'sp_zsymv'
+                                      else 'alpha.d')
+                    okv = increment_is(
+                        ex, pc_, val_, [l_[3] for l_ in yl], alpha_t,
+                        [l_[3] for l_ in vl], [l_[3] for l_ in xl],
+                        z3.BoolVal(False))
+                    ob('kernel-definition', pc_, z3.BoolVal(okv),
+                       'the value stored by the %s update is y + alpha * a '
+                       '* x (nothing conjugated)' % (
+                           'first' if q == 0 else 'mirrored'), ln_)
     done = set()
     seen_sc = 0
     for st, kind, val in finished:
